@@ -249,7 +249,7 @@ pub fn check(tier: &str) -> i32 {
             nontrivial: true,
         }
     };
-    let layouts = vec![Layout::Mem, Layout::FlushEnd, Layout::FlushEach, Layout::Compact1, Layout::RestartWal, Layout::RestartSeg];
+    let layouts = vec![Layout::Mem, Layout::FlushEnd, Layout::FlushEach, Layout::Compact1, Layout::RestartWal, Layout::RestartSeg, Layout::LabelReuse];
     let spec = Spec {
         prop: "C07",
         tier,
@@ -264,7 +264,7 @@ pub fn check(tier: &str) -> i32 {
         layouts,
         queries: qs.iter().map(|q| q.text.clone()).collect(),
         judge: &judge,
-        rule: "rows built from per-type value alphabets (18 strings incl. empty / numeric-, keyword-, JSON-looking / 4 KB / quotes+newline / separators, TAB and NUL / lengths 255, 256, 65536; 13 signed integers incl. both extremes and values that do not survive f64, f32 or i32 (2^53+1, 1234567890123456789, MAX-1, 2^31+1, 2^24+1); 8 u64 incl. 2^63, 2^64-1, 2^53+1; 18 floats incl. -0.0, 1e308, 5e-324, 0.1, 1/3, 2^24+1, 1e-7 and doubles needing 17 significant digits at extreme magnitudes (1.2345678901234567e20, f64::MAX, 2.2250738585072014e-308); bools; enum variants; null and absent optionals; 4 spellings of one instant): every pair of alphabet positions shares a zone; x 6 storage tiers x 23 QUERY/REPLAY RETURN variants; every returned cell is compared with the stored value per declared type, core fields must be present and right, non-requested payload columns absent; distinct_nontrivial = (data set, query) pairs judged".into(),
+        rule: "rows built from per-type value alphabets (18 strings incl. empty / numeric-, keyword-, JSON-looking / 4 KB / quotes+newline / separators, TAB and NUL / lengths 255, 256, 65536; 13 signed integers incl. both extremes and values that do not survive f64, f32 or i32 (2^53+1, 1234567890123456789, MAX-1, 2^31+1, 2^24+1); 8 u64 incl. 2^63, 2^64-1, 2^53+1; 18 floats incl. -0.0, 1e308, 5e-324, 0.1, 1/3, 2^24+1, 1e-7 and doubles needing 17 significant digits at extreme magnitudes (1.2345678901234567e20, f64::MAX, 2.2250738585072014e-308); bools; enum variants; null and absent optionals; 4 spellings of one instant): every pair of alphabet positions shares a zone; x 7 storage tiers (memory, one segment, a segment per row, compacted, WAL-recovered, segment-recovered, and compacted with a level-1 label handed out twice in one process) x 23 QUERY/REPLAY RETURN variants; every returned cell is compared with the stored value per declared type, core fields must be present and right, non-requested payload columns absent; distinct_nontrivial = (data set, query) pairs judged".into(),
         assumptions: vec!["numbers compare numerically (1 == 1.0, -0.0 == 0.0); an optional stored as null or left out may come back as null or be missing".into(), "rows are matched by their (unique, driver-controlled) STORE second".into()],
         describe: &|_| "a stored value / RETURN projection does not round-trip (exact cases in known/C07.*.json)".to_string(),
         extra: json!({}),
